@@ -11,7 +11,7 @@ from .common import call
 
 PROP = "C08"
 LEVEL = "exploration"
-CASES = {"quick": 400, "thorough": 20000}
+CASES = {"quick": 400, "thorough": 60000}
 SHARDS = {"quick": 8, "thorough": 16}
 ANCHORS = [
     "api.py:Converter.compress", "api.py:Converter.expand", "api.py:Converter.compress_or_standardize",
